@@ -22,7 +22,7 @@ RUN_TIMEOUT_S = 60.0
 MIN_BUDGET = 150
 
 TIERS = {
-    'quick': {'runs': 16000, 'classes': 8, 'budget_s': 75},
+    'quick': {'runs': 16000, 'classes': 8, 'budget_s': 60},
     'thorough': {'runs': 250000, 'classes': 32, 'budget_s': 1100},
 }
 
@@ -102,7 +102,9 @@ def transform(case, b):
             m = live.mems[k]
             mems[k] = {str(rng.randrange(1 << m.addrwidth)): gen.rand_val(rng, m.bitwidth)
                        for _ in range(rng.randint(1, 3))}
-    init = {'regs': regs, 'mems': mems, 'default': case['init'].get('default', 0)}
+    # a default_value that fits the original registers need not fit the transformed design's
+    dflt = case['init'].get('default', 0)
+    init = {'regs': regs, 'mems': mems, 'default': dflt if dflt <= 1 else 1}
     ins = sorted((w.name, w.bitwidth) for w in blk.wirevector_subset(pyrtl.Input))
     if config == 'synth_unmerged':
         tape = [{n: gen.rand_val(rng, w) for n, w in ins} for _ in case['cycles']]
